@@ -510,7 +510,7 @@ func c11(c *Ctx) {
 				c.SawFunc(FuncName(fn))
 				cs := strings.Join(condStrings(cl.Block()), " && ")
 				// events empty
-				okE := strings.Contains(cs, "awaitingEvents") && strings.Contains(cs, "==0:int)=true") || strings.Contains(cs, "(call(builtin len)==0:int)=true")
+				okE := knownEmpty(factsAt(cl.Block()), func(v ssa.Value) bool { return strings.Contains(exprString(v, 0), "awaitingEvents") }) || strings.Contains(cs, "(call(builtin len)==0:int)=true")
 				// metrics absent: either an explicit nil test, or a dominating comma-ok early return
 				okM := knownNil(factsAt(cl.Block()), func(v ssa.Value) bool { return strings.Contains(pathOf(v), "awaitingMetrics[") })
 				if !okM {
@@ -730,6 +730,7 @@ func c19(c *Ctx) {
 		// one goroutine per backend, in a range over bh.backends, on the semaphore-acquired branch
 		var gos []*ssa.Go
 		var dispatchedPhi *ssa.Phi
+		var indexAsCount ssa.Value
 		eachInstr(bh, func(in ssa.Instruction) {
 			if g, ok := in.(*ssa.Go); ok {
 				gos = append(gos, g)
@@ -794,6 +795,27 @@ func c19(c *Ctx) {
 					r.Check("BackendHandler:goroutine-dispatches-once", n == 1 && m == 2, cl.Pos(), "internalDispatchEvent over all paths = "+maskString(m))
 				}
 			}
+			// byType: the argument of the given named type
+			byType := func(args []ssa.Value, tname string) ssa.Value {
+				var out ssa.Value
+				for _, a := range args {
+					if strings.HasSuffix(strings.TrimPrefix(a.Type().String(), "*"), "gostatsd."+tname) {
+						out = a
+					}
+				}
+				return out
+			}
+			if !ideInline && staticCallee(g) == ide {
+				// go bh.internalDispatchEvent(..., backend, e): the arguments are evaluated in the handler itself
+				bArg, eArg := byType(g.Call.Args, "Backend"), byType(g.Call.Args, "Event")
+				r.Check("BackendHandler:goroutine-gets-this-backend", bArg != nil && isLoopBackend(bArg), g.Pos(), "the goroutine's backend is "+pathOf(bArg))
+				evParam := false
+				if p, ok := eArg.(*ssa.Parameter); ok && p.Parent() == bh {
+					evParam = true
+				}
+				r.Check("BackendHandler:dispatches-to-own-backend", evParam, g.Pos(), "internalDispatchEvent(..., b, e) with the handler's event")
+				r.Check("BackendHandler:goroutine-dispatches-once", true, g.Pos(), "the goroutine is internalDispatchEvent itself")
+			}
 			// dispatched counter incremented with the go
 			okInc := false
 			for _, in := range g.Block().Instrs {
@@ -806,7 +828,46 @@ func c19(c *Ctx) {
 					}
 				}
 			}
-			r.Check("BackendHandler:counts-dispatched", okInc, g.Pos(), "the count of started goroutines is incremented with each goroutine")
+			if !okInc {
+				// no separate counter: the index of the range over bh.backends is the number of goroutines started in
+				// the earlier iterations when every completed iteration starts exactly one (the go statement is in the
+				// loop body, and the only other way out of an iteration is the cancellation return)
+				for _, a := range adds {
+					b := asBinOp(a.Common().Args[1], token.SUB)
+					if b == nil || !strings.Contains(pathOf(b.Y), "builtin len") {
+						continue
+					}
+					var ph *ssa.Phi
+					if p, ok := b.X.(*ssa.Phi); ok {
+						ph = p
+					} else if ib := asBinOp(b.X, token.ADD); ib != nil {
+						ph, _ = ib.X.(*ssa.Phi)
+					}
+					if ph == nil || !isLoopHead(ph.Block()) || !loopBody(ph.Block())[g.Block()] {
+						continue
+					}
+					covers := false
+					eachInstr(bh, func(in ssa.Instruction) {
+						if ia, ok := in.(*ssa.IndexAddr); ok && pathOf(ia.X) == "bh.backends" && ia.Index == b.X {
+							if ld, ok := ia.X.(*ssa.UnOp); ok && loopCoversSlice(ph, ld) {
+								covers = true
+							}
+						}
+					})
+					// exactly one go statement on every path through an iteration that reaches the next one
+					nExit := 0
+					for _, e := range earlyExits(ph.Block()) {
+						if _, isPanic := e[1].Instrs[len(e[1].Instrs)-1].(*ssa.Panic); !isPanic {
+							nExit++ // (the compiler's "blocking select matched no case" panic is not an exit)
+						}
+					}
+					if covers && nExit <= 1 {
+						okInc = true
+						indexAsCount = b.X
+					}
+				}
+			}
+			r.Check("BackendHandler:counts-dispatched", okInc, g.Pos(), "the count of started goroutines is incremented with each goroutine (or is the index of the range over the backends)")
 			// acquired the semaphore on this branch
 			okSem := false
 			eachInstr(bh, func(in ssa.Instruction) {
@@ -827,7 +888,7 @@ func c19(c *Ctx) {
 		okComp := false
 		for _, a := range adds {
 			if b := asBinOp(a.Common().Args[1], token.SUB); b != nil {
-				if ph, ok := b.X.(*ssa.Phi); ok && ph == dispatchedPhi && strings.Contains(pathOf(b.Y), "builtin len") {
+				if ph, ok := b.X.(*ssa.Phi); ((ok && ph == dispatchedPhi && dispatchedPhi != nil) || (indexAsCount != nil && b.X == indexAsCount)) && strings.Contains(pathOf(b.Y), "builtin len") {
 					// followed by return
 					if _, isRet := a.Block().Instrs[len(a.Block().Instrs)-1].(*ssa.Return); isRet {
 						okComp = true
@@ -859,6 +920,13 @@ func c19(c *Ctx) {
 			if mc, ok := d.Call.Value.(*ssa.MakeClosure); ok {
 				_, rc := chanFieldOps(mc.Fn.(*ssa.Function), "concurrentEvents")
 				cf := mc.Fn.(*ssa.Function)
+				// eventWg.Done() inside the deferred function, on each of its paths
+				if m := countOnPaths(cf, func(in ssa.Instruction) bool {
+					cc, ok := in.(ssa.CallInstruction)
+					return ok && isCall(cc, "(*sync.WaitGroup).Done") && strings.HasSuffix(pathOf(cc.Common().Args[0]), ".eventWg")
+				}); m == 2 {
+					okDone = true
+				}
 				if len(rc) == 1 && countOnPaths(cf, func(in ssa.Instruction) bool { return in == rc[0] }) == 2 {
 					okRel = true
 				}
@@ -867,7 +935,11 @@ func c19(c *Ctx) {
 		r.Check("internalDispatchEvent:done-deferred", okDone, ide.Pos(), "eventWg.Done() is deferred before the send, so it runs on every path")
 		r.Check("internalDispatchEvent:slot-released-on-every-path", okRel, ide.Pos(), "the concurrentEvents slot is released by a defer registered before SendEvent (a failed send must not keep the slot)")
 		if !ideInline {
-			r.Check("internalDispatchEvent:sends-to-its-backend", paramIndex(ide, send.Common().Value) == 2 && paramIndex(ide, send.Common().Args[1]) == 3, send.Pos(), "backend.SendEvent(ctx, e)")
+			isParamOf := func(v ssa.Value, tname string) bool {
+				i := paramIndex(ide, v)
+				return i >= 0 && strings.HasSuffix(strings.TrimPrefix(ide.Params[i].Type().String(), "*"), "gostatsd."+tname)
+			}
+			r.Check("internalDispatchEvent:sends-to-its-backend", isParamOf(send.Common().Value, "Backend") && isParamOf(send.Common().Args[1], "Event"), send.Pos(), "backend.SendEvent(ctx, e) with the function's own backend and event parameters")
 		}
 		// forwarder
 		fd := w.Func(P, "(*HttpForwarderHandlerV2).DispatchEvent")
@@ -970,12 +1042,25 @@ func c19(c *Ctx) {
 		r.Check("parked-events:count-kept-until-forwarded", len(res.Errors) == 0, ue.Pos(), "the WaitGroup count of a parked event is released only after it has been handed to the next stage (a decrement before DispatchEvent lets WaitForEvents return early)")
 		// the release is deferred and subtracts exactly the number forwarded
 		okDef := false
+		var counter *ssa.Alloc // the local that counts the forwarded events: what the deferred Add subtracts
 		eachInstr(ue, func(in ssa.Instruction) {
 			if d, ok := in.(*ssa.Defer); ok {
 				if mc, ok := d.Call.Value.(*ssa.MakeClosure); ok {
 					for _, cl := range callsTo(mc.Fn.(*ssa.Function), "(*sync.WaitGroup).Add") {
-						if strings.Contains(pathOf(cl.Common().Args[1]), "dispatched") {
-							okDef = true
+						arg := cl.Common().Args[1]
+						var inner ssa.Value
+						if u, ok := arg.(*ssa.UnOp); ok && u.Op == token.SUB {
+							inner = u.X
+						} else if b := asBinOp(arg, token.SUB); b != nil {
+							if z, isC := constInt(b.X); isC && z == 0 {
+								inner = b.Y
+							}
+						}
+						if ld, ok := inner.(*ssa.UnOp); ok && ld.Op == token.MUL {
+							if cell := cellOf(ld.X); cell != nil && cell.Parent() == ue {
+								counter = cell
+								okDef = true
+							}
 						}
 					}
 				}
@@ -987,8 +1072,30 @@ func c19(c *Ctx) {
 		for _, cl := range callsIn(ue) {
 			if cl.Common().IsInvoke() && cl.Common().Method.Name() == "DispatchEvent" {
 				for _, in := range cl.Block().Instrs[:instrIndex(cl)] {
-					if st, ok := in.(*ssa.Store); ok && valueName(st.Addr) == "dispatched" {
+					st, ok := in.(*ssa.Store)
+					if !ok || counter == nil || cellOf(st.Addr) != counter {
+						continue
+					}
+					b := asBinOp(st.Val, token.ADD)
+					if b == nil {
+						continue
+					}
+					if one, isC := constInt(b.Y); !isC || one != 1 {
+						continue
+					}
+					// counter = counter + 1, or counter = i + 1 with i the index of the event being forwarded
+					if ld, ok := b.X.(*ssa.UnOp); ok && ld.Op == token.MUL && cellOf(ld.X) == counter {
 						okInc = true
+					}
+					if ev, ok := cl.Common().Args[1].(*ssa.UnOp); ok && ev.Op == token.MUL {
+						if ia, ok := ev.X.(*ssa.IndexAddr); ok && ia.Index == b.X {
+							okInc = true
+						}
+						if ia, ok := ev.X.(*ssa.IndexAddr); ok {
+							if ib := asBinOp(ia.Index, token.ADD); ib != nil && ib == b {
+								okInc = true
+							}
+						}
 					}
 				}
 			}
@@ -1025,7 +1132,7 @@ func c19(c *Ctx) {
 		}
 		for _, st := range fieldStores(hd, "Event", "DateHappened") {
 			cs := strings.Join(condStrings(st.Block()), " && ")
-			r.Check("parser:event-time-only-when-absent", strings.Contains(cs, ".DateHappened==0)=true") && strings.Contains(exprString(st.Val, 0), "time.Now"), st.Pos(), "DateHappened <- now only when the line carried none: "+cs)
+			r.Check("parser:event-time-only-when-absent", cmpHolds(factsAt(st.Block()), func(v ssa.Value) bool { return strings.HasSuffix(pathOf(v), ".DateHappened") }, func(v ssa.Value) bool { n, ok := constInt(v); return ok && n == 0 }, token.EQL) && strings.Contains(exprString(st.Val, 0), "time.Now"), st.Pos(), "DateHappened <- now only when the line carried none: "+cs)
 		}
 	})
 
@@ -1217,7 +1324,17 @@ func cloudReleaseRule(c *Ctx, r *Rule, hi *ssa.Function, fns map[string]*ssa.Fun
 			}
 			g := gos[0]
 			a := g.Call.Args
-			r.Check("release:"+kind.field+":passes-parked", a[3] == ssa.Value(lk), g.Pos(), "the goroutine receives the parked value that was looked up")
+			// "take" form: the parked value travels through a variable that is nil when nothing was parked
+			takeForm := false
+			if ph, isPhi := a[3].(*ssa.Phi); isPhi {
+				takeForm = true
+				for _, e := range ph.Edges {
+					if !isNilConst(e) && e != ssa.Value(lk) {
+						takeForm = false
+					}
+				}
+			}
+			r.Check("release:"+kind.field+":passes-parked", a[3] == ssa.Value(lk) || takeForm, g.Pos(), "the goroutine receives the parked value that was looked up")
 			r.Check("release:"+kind.field+":passes-instance", strings.HasSuffix(pathOf(a[2]), ".Instance"), g.Pos(), "the goroutine receives info.Instance")
 			var del ssa.CallInstruction
 			for _, cl := range callsTo(hi, "builtin delete") {
@@ -1225,11 +1342,42 @@ func cloudReleaseRule(c *Ctx, r *Rule, hi *ssa.Function, fns map[string]*ssa.Fun
 					del = cl
 				}
 			}
-			r.Check("release:"+kind.field+":deleted-with-release", del != nil && del.Block() == g.Block(), g.Pos(), "the entry is deleted in the same branch that starts the goroutine")
-			// guard: non-nil / non-empty
 			guard := strings.Join(condStrings(g.Block()), " && ")
 			fs := factsAt(g.Block())
 			isParked := func(v ssa.Value) bool { return v == ssa.Value(lk) }
+			if takeForm && del != nil && del.Block() != g.Block() {
+				// the delete and the go statement stand under two tests of the same fact; decided on paths
+				// (a branch on the carried value is followed only in the direction its origin allows):
+				// every path performs neither, or the delete and then the go statement, and the delete
+				// itself happens exactly when something is parked
+				res := runAutomaton(hi, 0, func(in ssa.Instruction) int {
+					if in == del.(ssa.Instruction) {
+						return 0
+					}
+					if in == ssa.Instruction(g) {
+						return 1
+					}
+					return -1
+				}, func(st, ev int) int {
+					switch {
+					case ev == 0 && st == 0:
+						return 1
+					case ev == 1 && st == 1:
+						return 2
+					}
+					return -1
+				})
+				var m uint32
+				for _, st := range res.ExitStates {
+					m |= st
+				}
+				r.Check("release:"+kind.field+":deleted-with-release", len(res.Errors) == 0 && m&2 == 0, g.Pos(), fmt.Sprintf("on every path the entry is deleted and then exactly one goroutine started, or neither (exit states %b)", m))
+				dfs := factsAt(del.Block())
+				r.Check("release:"+kind.field+":guard", len(dfs) == 1 && (knownNonNil(dfs, isParked) || knownNonEmpty(dfs, isParked)), del.Pos(), "released under exactly one condition (something is parked): "+strings.Join(condStrings(del.Block()), " && "))
+				continue
+			}
+			r.Check("release:"+kind.field+":deleted-with-release", del != nil && del.Block() == g.Block(), g.Pos(), "the entry is deleted in the same branch that starts the goroutine")
+			// guard: non-nil / non-empty
 			r.Check("release:"+kind.field+":guard", len(fs) == 1 && (knownNonNil(fs, isParked) || knownNonEmpty(fs, isParked)), g.Pos(), "released under exactly one condition (something is parked): "+guard)
 		}
 }
